@@ -124,6 +124,11 @@ def _child(spec: dict) -> dict:  # noqa: C901, PLR0915, PLR0912
 
         for name in ("SIGWINCH", "SIGTSTP", "SIGCONT"):
             signal.signal(watched[name], mk(name))
+    elif str(spec.get("handlers", "")).startswith("ign"):
+        # an application that ignores signals (e.g. disables ctrl-z): "ign" = all four, "ign:SIGTSTP" = just that one
+        h = spec["handlers"]
+        for name in watched if h == "ign" else [h.split(":", 1)[1]]:
+            signal.signal(watched[name], signal.SIG_IGN)
     sig_before = {n: signal.getsignal(s) for n, s in watched.items()}
     tc_before = termios.tcgetattr(slave)
 
@@ -158,8 +163,8 @@ def _child(spec: dict) -> dict:  # noqa: C901, PLR0915, PLR0912
 
     def bump() -> int:
         st["state"] += 1
-        main_spy._invalidate()
-        pop_spy._invalidate()
+        for w in spies.values():
+            w._invalidate()
         return st["state"]
 
     # ---- spy widgets
@@ -170,9 +175,14 @@ def _child(spec: dict) -> dict:  # noqa: C901, PLR0915, PLR0912
         _selectable = True
         ignore_focus = False
 
-        def __init__(self, name: str) -> None:
+        def __init__(self, name: str, selectable: bool = True, handled=("a", "p", "c", "x", "y", "w", "begin paste", "end paste")) -> None:
             super().__init__()
             self.name = name
+            self._is_selectable = selectable
+            self.handled = tuple(handled)
+
+        def selectable(self) -> bool:
+            return self._is_selectable
 
         def render(self, size, focus=False):
             via = "other"
@@ -196,8 +206,11 @@ def _child(spec: dict) -> dict:  # noqa: C901, PLR0915, PLR0912
         def keypress(self, size, key):
             enter("keypress", w=self.name, size=list(size), key=key)
             s = bump()
-            handled = key in ("a", "p", "c", "x", "y", "begin paste", "end paste")
+            handled = key in self.handled
             if handled:
+                if key == "w":  # the widget itself replaces the top widget by the NOT selectable page
+                    loop.widget = spies["N"]
+                    log.append({"site": "swap", "to": "N", "by": "keypress"})
                 if key == "p" and self.name == "M":
                     st["popup"] = True
                 if key == "c" and self.name == "P":
@@ -214,6 +227,8 @@ def _child(spec: dict) -> dict:  # noqa: C901, PLR0915, PLR0912
 
     main_spy = Spy("M")
     pop_spy = Spy("P")
+    spies = {"M": main_spy, "P": pop_spy, "N": Spy("N", selectable=False, handled=()), "T": Spy("T", handled=("b", "t", "w"))}
+    SWAP_KEYS = {"n": "N", "s": "T", "m": "M"}  # handled by unhandled_input: loop.widget = that page
 
     def input_filter(keys, raw):
         enter("filter", keys=[k if isinstance(k, str) else list(k) for k in keys], nraw=len(raw))
@@ -223,6 +238,9 @@ def _child(spec: dict) -> dict:  # noqa: C901, PLR0915, PLR0912
         enter("unhandled", key=key if isinstance(key, str) else list(key))
         s = bump()
         log.append({"site": "ret", "of": "unhandled", "state": s})
+        if isinstance(key, str) and key in SWAP_KEYS:
+            loop.widget = spies[SWAP_KEYS[key]]
+            log.append({"site": "swap", "to": SWAP_KEYS[key], "by": "unhandled"})
         if key == "Q":
             log.append({"site": "final_exit", "via": "Q"})
             raise urwid.ExitMainLoop()
